@@ -90,6 +90,27 @@ func c12Scenarios(tier string) []*Scenario {
 				}
 				sc2.Check = func(w *World) []Violation { return c12Check(w, deps) }
 				scs = append(scs, sc2)
+				// variant: the leaf dependent is disabled in the configuration and was started by hand
+				nodes3 := append([]GNode{}, nodes...)
+				nodes3[n-1].Disabled = true
+				yaml3, procs3, _ := buildGraph(nodes3, nil)
+				othersUp := func(w *World) bool {
+					alive := 0
+					for _, f := range w.procs {
+						if f.Alive() {
+							alive++
+						}
+					}
+					return alive == n-1
+				}
+				sc3 := &Scenario{
+					ID:   fmt.Sprintf("c12-%s-manual[%s]", sh.id, leaf),
+					YAML: yaml3, Procs: procs3, K: 1, Ordered: true, TickBudget: 1,
+					API:      [][]APICall{{{Op: "start", Name: leaf, When: othersUp}, {Op: "shutdown", When: allUp}}},
+					MapSites: sc.MapSites,
+				}
+				sc3.Check = func(w *World) []Violation { return c12Check(w, deps) }
+				scs = append(scs, sc3)
 			}
 		}
 	}
